@@ -803,7 +803,7 @@ class CompartmentalSystem(Statement):
         # NOTE: Canonical order to be independent of the order of construction
         comps = sorted(_comps(self._g), key=lambda comp: comp.name)
         if output in self._g:
-            comps.append(output)
+            comps.insert(0, output)
         comps_dicts = tuple(comp.to_dict() for comp in comps)
 
         edges = []
